@@ -7,6 +7,7 @@ scalar type: the driver runs them at `Float`, the theorems are proved at `Rat`.
 -/
 import Mahotas.Model.Basic
 import Mahotas.Generated.Tables
+import Mahotas.Model.C20Stretch
 namespace Mahotas.C20
 open Mahotas Mahotas.Generated
 
@@ -78,9 +79,10 @@ def linearToSrgbG {α : Type} [Add α] [Sub α] [Mul α] [Div α] [LE α] [Decid
   (if v ≤ knee then (if lowBelow then low else high) else (if lowBelow then high else low)) * scale
 
 /-- sRGB encoding at `Float` with the extracted constants (`(1.0 + a) * pow v (1.0 / 2.4) - a`,
-    `12.92 * v`, `… * 255.0`) -/
+    `12.92 * v`, `… * 255.0`); since round 4 the `1`, `2.4` and `255.` are the extracted literals of `xyz2rgb` too
+    (`srgbOneInvF` serves as the `1` of `(1 + a)` and as the numerator of `1./2.4`: `C20_tables_xyz2rgb_literals`) -/
 def linearToSrgbWith (lowBelow : Bool) (v : Float) : Float :=
-  linearToSrgbG Float.pow litsF.one 2.4 srgbAInvF srgbSlopeInvF srgbKneeInvF 255.0 lowBelow v
+  linearToSrgbG Float.pow srgbOneInvF srgbGammaInvF srgbAInvF srgbSlopeInvF srgbKneeInvF srgbScaleInvF lowBelow v
 
 /-- the CIE L*a*b* helper `f`, generic: `large = t^(1/3)`, `small = ((1/3)(29/6)(29/6)) t + 4/29`,
     knee `(δnum/δden)^k`; `smallBelow` = which alternative is taken where `t ≤ knee` -/
@@ -172,50 +174,25 @@ def sepiaSpecQ (r g b : Int) : List Int :=
     let v := if v < 0 then 0 else v
     v.floor
 
-/-! ## stretch -/
+/-! ## dtype handling of the colour conversions (round 4)
 
-/-- the affine map of `stretch`: `(x - mn) * ((hi - lo) / ptp) + lo` -/
-def stretchCore {α : Type} [Add α] [Sub α] [Mul α] [Div α] (mn ptp lo hi x : α) : α :=
-  (x - mn) * ((hi - lo) / ptp) + lo
+`rgb/255.` (true division), `np.dot(matrix, array)` and `x/xn` convert an integer image to `double` first, so a
+conversion of an integer image is the conversion of the converted values; a `dtype=` request is `astype(dtype)` of
+the `float64` result (for `xyz2rgb` since the repair: of the returned sRGB values, not of the linear intermediate):
+C truncation, then the dtype's reduction. -/
 
-/-- `if max >= min: np.minimum(img, max, out=img)`: rounding must not carry a pixel above `hi` -/
-def capHi {α : Type} [LT α] [DecidableLT α] (lo hi y : α) : α :=
-  if hi < lo then y else if hi < y then hi else y
+def rgb2xyzInt (rgb : List Int) : List Float := rgb2xyz (rgb.map Float.ofInt)
+def rgb2labInt (rgb : List Int) : List Float := rgb2lab (rgb.map Float.ofInt)
+def roundTripInt (rgb : List Int) : List Float := xyz2rgb (rgb2xyzInt rgb)
+def greyInt (rgb : List Int) : Float := dot greyWF (rgb.map Float.ofInt)
 
-def minL {α : Type} [LT α] [DecidableLT α] : α → List α → α
-  | m, [] => m
-  | m, x :: xs => minL (if x < m then x else m) xs
+/-- `astype(dt)` of a list of doubles for an integer dtype -/
+def castOutInt (dt : DT) (v : List Float) : List Int := v.map fun y => dt.wrap (truncF y)
 
-def maxL {α : Type} [LT α] [DecidableLT α] : α → List α → α
-  | m, [] => m
-  | m, x :: xs => maxL (if m < x then x else m) xs
-
-/-- `stretch` before the final cast: `img -= img.min(); ptp = img.ptp();` constant image ↦ all `lo`,
-    otherwise the affine map (`x ↦ (x - min) * ((hi - lo)/ptp) + lo`) capped at `hi`. -/
-def stretchList {α : Type} [Add α] [Sub α] [Mul α] [Div α] [LT α] [DecidableLT α] [OfNat α 0]
-    (xs : List α) (lo hi : α) : List α :=
+def intTriples (xs : List Int) : List (List Int) :=
   match xs with
-  | [] => []
-  | x0 :: rest =>
-    let mn := minL x0 rest
-    let ptp := maxL (x0 - mn) (rest.map (· - mn))
-    if 0 < ptp then xs.map (fun x => capHi lo hi (stretchCore mn ptp lo hi x)) else xs.map (fun _ => lo)
-
-/-- C cast double → integer dtype (truncation towards zero); exact for |v| < 2^63 -/
-def truncF (v : Float) : Int := v.toInt64.toInt
-
-/-- exact counterpart of `truncF`: the C conversion of a real (here rational) number to an integer type
-    discards the fractional part, i.e. rounds **towards zero** (`floor` for `q ≥ 0`, `-floor(-q) = ceil q`
-    for `q < 0`) — not `floor`: `truncQ (-5/2) = -2`. -/
-def truncQ (q : Rat) : Int := if 0 ≤ q then q.floor else -((-q).floor)
-
-/-- the exact rational value of a finite double (`frexp`: `v = m·2^e`, `m·2^53` is an integer); only used by
-    the driver to print `truncQ` beside `truncF` -/
-def floatToRat (v : Float) : Rat :=
-  let (m, e) := v.frExp
-  let mi : Int := (m * 9007199254740992.0).toInt64.toInt
-  let k := e - 53
-  if 0 ≤ k then ((mi * (2 : Int) ^ k.toNat : Int) : Rat) else mkRat mi (2 ^ (-k).toNat)
+  | r :: g :: b :: rest => [r, g, b] :: intTriples rest
+  | _ => []
 
 /-! ## driver -/
 
@@ -233,6 +210,16 @@ def handle (a : Args) : String :=
     s!"xyz={cat xyz} xyzspec={cat (ts.map rgb2xyzSpec)} lab={cat (ts.map rgb2lab)} " ++
     s!"labspec={cat (ts.map rgb2labSpec)} back={cat (xyz.map xyz2rgb)} " ++
     s!"grey={showFloats (ts.map fun t => dot greyWF t)} sepia={showNats (ts.map sepia).flatten}"
+  | "rgbint" =>
+    let ts := intTriples (a.ints "rgb")
+    let dt := DT.ofName (a.str "out")
+    let xyz := (ts.map rgb2xyzInt).flatten
+    let lab := (ts.map rgb2labInt).flatten
+    let back := (ts.map roundTripInt).flatten
+    let grey := ts.map greyInt
+    s!"xyz={showFloats xyz} lab={showFloats lab} back={showFloats back} grey={showFloats grey} " ++
+    s!"xyzint={showInts (castOutInt dt xyz)} labint={showInts (castOutInt dt lab)} " ++
+    s!"backint={showInts (castOutInt dt back)} greyint={showInts (castOutInt dt grey)}"
   | "xyz2rgb" =>
     let ts := triples (a.floats "xyz")
     s!"rgb={showFloats (ts.map xyz2rgb).flatten} rgbspec={showFloats (ts.map xyz2rgbSpec).flatten}"
@@ -250,6 +237,6 @@ def handle (a : Args) : String :=
     s!"float={showFloats ys} int={showInts (ys.map truncF)} intq={showInts (ys.map fun y => truncQ (floatToRat y))}"
   | "consts" =>
     s!"m={showFloats (rgb2xyzMF.flatten ++ xyz2rgbMF.flatten ++ sepiaMF.flatten ++ greyWF ++ labWhiteF)}"
-  | k => s!"error=unknown-kind-{k}"
+  | _ => handleStretch a
 
 end Mahotas.C20
